@@ -27,7 +27,7 @@ ASSUMPTIONS = ["RLIMIT_FSIZE stands in for a full file system and applies to eve
                "overflow = the end index of an appended subarray does not fit the index type"]
 EXHAUSTIVE = "the F-fsize grid for the values file and for the indices file"
 KINDS = ['raise', 'badatom', 'badrank', 'unconv', 'overflow', 'numstr', 'bare-scalar', 'atomshaped']
-MUST_HIT = ['iter:generator-switches-handle-to-r', 'overflow:end=max+1', 'iter:>1024-items-before-the-failure', 'iter:one-ndarray-as-iterable', 'iter:generator-whose-close-raises', 'iter:inside-open-context', 'fsize:refused-in-buffered-tail-of-big-item'] + ['iter:' + k for k in KINDS] + ['iter:append', 'iter:iterappend', 'iter:empty-start', 'iter:p=0', 'iter:p>0',
+MUST_HIT = ['iter:no-free-descriptors', 'iter:raises-non-Exception', 'iter:generator-switches-handle-to-r', 'overflow:end=max+1', 'iter:>1024-items-before-the-failure', 'iter:one-ndarray-as-iterable', 'iter:generator-whose-close-raises', 'iter:inside-open-context', 'fsize:refused-in-buffered-tail-of-big-item'] + ['iter:' + k for k in KINDS] + ['iter:append', 'iter:iterappend', 'iter:empty-start', 'iter:p=0', 'iter:p>0',
                                              'fsize:values', 'fsize:indices', 'fsize:loud', 'fsize:silent', 'fsize:mid-row', 'fsize:on-boundary']
 IDXMAX = {'int8': 127, 'uint8': 255, 'int16': 32767}
 
@@ -363,7 +363,64 @@ def _exec_fsize(ctx, spec):
     return out
 
 
+def _exec_emfile(ctx, spec):
+    """The data source fails because the process has run out of file descriptors (it opens a file per subarray and keeps them),
+    and none is free while the failed call cleans up."""
+    import darr
+    out = Outcome()
+    out.cls('iter:raise', 'iter:iterappend', 'iter:no-free-descriptors')
+    dt = dt_of(spec['dt'])
+    atom = tuple(spec['atom'])
+    with ctx.scratch() as d:
+        path = os.path.join(d, 'r.darr')
+        start_items = [gens.build_array(dt, (ln,) + atom, {'m': 'raw', 's': spec['seed'] + 50 + i}) for i, ln in enumerate(spec['start'])]
+        if start_items:
+            ra = darr.asraggedarray(path, start_items, dtype=dt, indextype=spec['indextype'], accessmode='r+')
+        else:
+            ra = darr.asraggedarray(path, [np.zeros((1,) + atom, dtype=dt)], dtype=dt, indextype=spec['indextype'], accessmode='r+')
+            darr.truncate_raggedarray(ra, 0)
+            out.cls('iter:empty-start')
+        done = [gens.build_array(dt, (ln,) + atom, {'m': 'raw', 's': spec['seed'] + 1 + i}) for i, ln in enumerate(spec['lens'])]
+        want = start_items + done
+        tag = f"emfile:{'empty' if not start_items else 'nonempty'}-start:{'first' if not done else 'later'}-item"
+
+        def op(exhaust):
+            def src():
+                for c in done:
+                    yield c
+                exhaust()
+            if spec.get('ctx'):
+                with ra.open_arrays():
+                    ra.iterappend(src())
+            else:
+                ra.iterappend(src())
+
+        def inspect(raised):
+            o = Outcome()
+            check_after(o, tag, path, ra, want, dt, raised)
+            return o.violations
+        res, err = faults.run_without_free_descriptors(op, inspect)
+        if err is not None and err.startswith('child killed by signal'):
+            out.viol('interpreter-crash-after-failed-append', tag, err)
+            return out
+        if err is not None:
+            raise HarnessError(err)
+        out.violations.extend(res)
+    return out
+
+
+def emfile_grid():
+    for (t, bo), atom, itype in ((('int32', '<'), [], 'int64'), (('float64', '>'), [2], 'int16'), (('uint8', '<'), [1, 2], 'uint8')):
+        for start in ([], [2, 0]):
+            for lens in ([], [2], [1, 0, 3], [1] * 40):
+                # (not inside the caller's own open_arrays() block: there the call cannot release a descriptor, and without one
+                # nobody can rewrite a description - the unchanged tree leaves the array unreadable, which is recorded in DESIGN 8.7)
+                yield {'f': 'emfile', 'dt': {'t': t, 'bo': bo}, 'atom': atom, 'indextype': itype, 'seed': 4, 'start': start, 'lens': lens, 'ctx': False}
+
+
 def execute(ctx, spec):
+    if spec['f'] == 'emfile':
+        return _exec_emfile(ctx, spec)
     return _exec_iter(ctx, spec) if spec['f'] == 'iter' else _exec_fsize(ctx, spec)
 
 
@@ -413,6 +470,7 @@ def task_fsize(ctx, col, shard):
 def task_itergrid(ctx, col, shard):
     enum_search(ctx, col, (s for i, s in enumerate(iter_grid()) if i % NSHARDS == shard), lambda s: execute(ctx, s))
     enum_search(ctx, col, (s for i, s in enumerate(long_grid()) if i % NSHARDS == shard), lambda s: execute(ctx, s))
+    enum_search(ctx, col, (s for i, s in enumerate(emfile_grid()) if i % NSHARDS == shard), lambda s: execute(ctx, s))
 
 
 def task_random(ctx, col, shard, n):
